@@ -207,6 +207,7 @@ def run(ctx):
 
     # ------------------------------------------------------------------ R4 mutex
     n4 = 0
+    n4d = [0]
     for fn in [f for f in fx if f.record == FUTEX]:
         ig = IG(fn, inline=nin)
         live = ig.live_nodes()
@@ -240,6 +241,27 @@ def run(ctx):
             ctx.ob("C13.R4b", L.short(fn), ok, fn.loc,
                    "a waiter must be linked (and true returned) only when the futex value equals the expected value, "
                    "tested under the same lock as the link")
+        # R4d a cancelled waiter is unlinked from both neighbours (after seed C13-6): the predecessor's next AND the follower's
+        # prev - a follower that keeps pointing at the released node writes into that node when it is cancelled in turn, and
+        # the list keeps a node whose slot a later wait re-uses
+        if fn.name == "remove_awaiter":
+            def link_store(n, outer, inner):
+                if n.ev["e"] != "asg" or n.ev.get("op") != "=":
+                    return False
+                lhs = strip_cast(n.ev.get("lhs"))
+                if not (isinstance(lhs, dict) and lhs.get("k") == "f" and lhs.get("n") == outer):
+                    return False
+                b = strip_cast(lhs.get("b"))
+                if isinstance(b, dict) and b.get("k") == "u":
+                    b = strip_cast(b.get("x"))
+                return isinstance(b, dict) and b.get("k") == "f" and b.get("n") == inner
+            fwd = [n for n in ig.ev_nodes() if n.id in live and link_store(n, "next", "prev")]
+            back = [n for n in ig.ev_nodes() if n.id in live and link_store(n, "prev", "next")]
+            ctx.ob("C13.R4d", L.short(fn), bool(fwd) and bool(back), fn.loc,
+                   "remove_awaiter must repair both links around the cancelled node (prev->next and next->prev): %s is missing, so a "
+                   "neighbour keeps pointing at a node whose deposit-box slot is released and will be re-used by a later wait" %
+                   ("next->prev" if fwd else "prev->next"), site="Futex::remove_awaiter@unlink-both-sides")
+            n4d[0] += 1
         # R4c every node a waker detaches from the list is marked detached (prev = nullptr) before the waker
         # tries to take it - whoever owns the node: a canceller that already won the take will call
         # remove_awaiter later and relies on prev == nullptr to know the node is no longer linked
@@ -261,6 +283,7 @@ def run(ctx):
                        "it is no longer part of and re-attaches released nodes to the futex head",
                        site="%s@detach-mark" % L.short(fn))
     ctx.floor("C13.R4", n4, 4, "Futex functions that edit the waiter list")
+    ctx.floor("C13.R4d", n4d[0], 1, "Futex::remove_awaiter")
 
     # ------------------------------------------------------------------ R5 exactly-one continuation
     for fn in fb.find(r"^babylon::coroutine::BasicPromise::FinalAwaitable::await_suspend$", pred=lambda f: f.has_cfg()):
